@@ -25,6 +25,7 @@ type Clause struct {
 
 type LoopSpec struct {
 	Exits       []*Clause // asserted (then assumed) at every block entered on leaving the loop
+	Breaks      []*Clause // the same, but only where leaving the loop continues an enclosing loop (a break, not a return)
 	Invariants  []*Clause
 	Modifies    []*Clause
 	HasModifies bool
@@ -355,6 +356,10 @@ func (sp *Specs) ParseFile(path string, defaultPkg string) {
 			case "exit":
 				if c := mkClause(body, rc.line); c != nil {
 					ls.Exits = append(ls.Exits, c)
+				}
+			case "break":
+				if c := mkClause(body, rc.line); c != nil {
+					ls.Breaks = append(ls.Breaks, c)
 				}
 			case "modifies":
 				ls.HasModifies = true
